@@ -145,6 +145,7 @@ package template
 //@   ensures wf: r.state <= stateError && r.delim <= delimSpaceOrTagEnd && 0 <= n && n <= len(s)
 //@   ensures found: exists(p, 0, len(s) - 2, matchat(s, p, "-->")) ==> r.state == stateText && r.delim == delimNone && len(r.element.name) == 0 && len(r.attr.name) == 0 && isnil(r.err) && n >= 3 && n <= len(s) && matchat(s, n - 3, "-->") && forall(q, 0, n - 3, !matchat(s, q, "-->"))
 //@   ensures none: !exists(p, 0, len(s) - 2, matchat(s, p, "-->")) ==> same(r, c) && n == len(s)
+//@   ensures nonekeeps: !exists(p, 0, len(s) - 2, matchat(s, p, "-->")) ==> identical(r.element.name, c.element.name)
 
 //@ func tAttr(c context, s []byte) (r context, n int)
 //@   serves C01 C02 C04 C08
@@ -187,6 +188,7 @@ package template
 //@   ensures wf: r.state <= stateError && r.delim <= delimSpaceOrTagEnd && 0 <= n && n <= len(s)
 //@   ensures found: c.state == stateSpecialElementBody && isspecial(c.element.name) && exists(p, 0, len(s), endtagat(s, p, c.element.name)) ==> r.state == stateText && r.delim == delimNone && len(r.element.name) == 0 && len(r.attr.name) == 0 && isnil(r.err) && len(r.linkRel) == 0 && len(r.scriptType) == 0 && 0 <= n && n < len(s) && endtagat(s, n, c.element.name) && forall(p, 0, n, !endtagat(s, p, c.element.name))
 //@   ensures none: !(c.state == stateSpecialElementBody && isspecial(c.element.name) && exists(p, 0, len(s), endtagat(s, p, c.element.name))) ==> same(r, c) && n == len(s)
+//@   ensures otherkeeps: c.state != stateSpecialElementBody ==> identical(r.element.name, c.element.name)
 
 //@ func tText(c context, s []byte) (r context, n int)
 //@   serves C01 C02 C04 C08
@@ -626,6 +628,7 @@ package template
 //@   ensures unqerror: c.delim == delimSpaceOrTagEnd && exists(j, 0, len(s), unquotedbad(s[j]) && forall(k, 0, j + 1, !isdelimend(c.delim, s[k]))) ==> r.state == stateError && !isnil(r.err) && n == len(s)
 //@   ensures open: c.delim != delimNone && forall(k, 0, len(s), !isdelimend(c.delim, s[k])) && !(c.delim == delimSpaceOrTagEnd && exists(j, 0, len(s), unquotedbad(s[j]))) ==> n == len(s) && r.state == stateAttr && r.delim == c.delim && seqeq(r.attr.value, cat(c.attr.value, s)) && same(r.attr.name, c.attr.name) && same(r.element, c.element) && same(r.linkRel, c.linkRel) && r.attr.ambiguousValue == c.attr.ambiguousValue
 //@   ensures closed: c.delim != delimNone && exists(e, 0, len(s), isdelimend(c.delim, s[e]) && forall(k, 0, e, !isdelimend(c.delim, s[k]) && !(c.delim == delimSpaceOrTagEnd && unquotedbad(s[k])))) ==> r.state == stateTag && r.delim == delimNone && len(r.attr.name) == 0 && len(r.attr.value) == 0 && same(r.element, c.element) && isnil(r.err) && exists(e, 0, len(s), isdelimend(c.delim, s[e]) && forall(k, 0, e, !isdelimend(c.delim, s[k])) && n == e + ite(c.delim == delimSpaceOrTagEnd, 0, 1))
+//@   ensures cmtkeeps: c.state == stateHTMLCmt && c.delim == delimNone && r.state == stateHTMLCmt ==> identical(r.element.name, c.element.name)
 //@   ensures relkept: c.delim != delimNone && r.state == stateTag && !(c.state == stateAttr && c.element.name == "link" && c.attr.name == "rel") ==> same(r.linkRel, c.linkRel)
 //@   loop 1
 //@     invariant c.state == stateAttr && c.delim == old(c.delim) && len(u) >= 0
@@ -726,6 +729,7 @@ package template
 //@   loop 1
 //@     invariant 0 <= written && written <= i && i <= len(s) && len(b) == slen(seq(b))
 //@     invariant c.state <= stateError && c.delim <= delimSpaceOrTagEnd && (c.delim != delimNone ==> c.state == stateAttr) && (c.state == stateText ==> !isspecial(c.element.name))
+//@     invariant cmtskipped: c.state == stateHTMLCmt && policycontent(c.element.name) == 0 ==> written == i
 //@   loop 2
 //@     invariant i - 1 <= j && j < i1 && end == i1 && i1 <= len(s) && i <= i1 && written <= i
 //@     invariant forall(k, j + 1, i1, s[k] != '<')
